@@ -11,6 +11,7 @@ mod c13;
 mod c14;
 mod c15;
 mod c16;
+mod c17;
 mod c16conf;
 mod c19;
 mod c20;
@@ -40,6 +41,7 @@ fn registry(id: &str) -> Option<(RunFn, ReplayFn)> {
         "C14" => Some((c14::run, c14::replay)),
         "C15" => Some((c15::run, c15::replay)),
         "C16" => Some((c16::run, c16::replay)),
+        "C17" => Some((c17::run, c17::replay)),
         "C19" => Some((c19::run, c19::replay)),
         "C20" => Some((c20::run, c20::replay)),
         _ => None,
@@ -104,6 +106,7 @@ fn main() {
     let ctx = match id.as_str() {
         "C03" => ctx.with_budget(50, 3000),
         "C16" => ctx.with_budget(50, 1500),
+        "C02" | "C04" | "C17" => ctx.with_budget(55, 1800),
         _ => ctx,
     };
     let rep = run(&ctx);
